@@ -16,6 +16,8 @@ import VaxisModel.Lemmas.EmuBodyRow
 import VaxisModel.Lemmas.EmuBodyPrint
 import VaxisModel.Lemmas.EmuBodyTabs
 import VaxisModel.Lemmas.EmuBodyModes
+import VaxisModel.Lemmas.EmuBodyReflow
+import VaxisModel.Lemmas.EmuSafe1
 
 namespace VaxisModel.Props.C05Bodies
 open VaxisModel.Model.Emu VaxisModel.Model.EmuBody VaxisModel.Lemmas.Emu VaxisModel.Lemmas.EmuBody VaxisModel.Gen
@@ -148,10 +150,25 @@ theorem body_cbt (e : Emu) (n : Int) : evalBody TermBodies.body_cbt [] [n] e = .
 theorem body_tbc (e : Emu) (n : Int) : evalBody TermBodies.body_tbc [] [n] e = .ok (tbc e n) := body_tbc_eq e n
 theorem body_hts (e : Emu) : evalBody TermBodies.body_hts [] [] e = .ok (hts e) := body_hts_eq e
 
-/-- resize(w, h) (term.go): everything but the reflow loop nest is interpreted; see `body_resize_eq`.
-    For every size, including negative ones (`make` panics), except the unreachable `w < 0 ∧ h = 0`. -/
-theorem body_resize (e : Emu) (w h : Int) (h0 : ¬ (w < 0 ∧ h = 0)) :
-    evalBody TermBodies.body_resize [] [w, h] e = resize Fixes.current e w h := body_resize_eq e w h h0
+/-- resize(w, h) (term.go): EVERY statement is interpreted, the reflow loop nest included (two function-level loops over
+    the snapshot of the old primary screen; `Lemmas/EmuBodyReflow.lean`). For every size, including negative ones (`make`
+    panics), except the unreachable `w < 0 ∧ h = 0`; the old primary screen must be rectangular (`Rect`: every row as wide
+    as the first, which `len(primary[0])` as the bound of the inner loop presupposes). -/
+theorem body_resize (e : Emu) (w h : Int) (h0 : ¬ (w < 0 ∧ h = 0)) (hrect : Rect e.primary) :
+    evalBody TermBodies.body_resize [] [w, h] e = resize Fixes.current e w h := body_resize_eq e w h h0 hrect
+
+/-- Every state the safety theorems speak about has a rectangular primary screen … -/
+theorem rect_of_inv {e : Emu} {rows cols : Nat} (h : EmuInv e rows cols) : Rect e.primary := by
+  intro r hr
+  rw [h.prim.rowLen r hr]
+  unfold width0
+  split
+  · rename_i hnil; rw [hnil] at hr; cases hr
+  · rename_i r0 _ hcons
+    exact (h.prim.rowLen r0 (by rw [hcons]; exact List.mem_cons_self)).symm
+
+/-- … and so has the state `New()` leaves (no rows at all), on which StartWithSize calls resize first. -/
+theorem rect_init : Rect Emu.init.primary := by intro r hr; cases hr
 
 example : ¬ ((80 : Int) < 0 ∧ (24 : Int) = 0) := by decide
 
